@@ -78,7 +78,7 @@ def run(chk, prog, tier):
                                     '%s is called with a NULL output buffer at %s:%s (%s): %s'
                                     % (nm, node.get('_f'), node.get('_l'), eff.chain(parent, k), why), line=node.get('_l')))
     chk.rule('C18.no-shared-writes', 'functions and library calls reachable from verify/generate: no store to a global/static, to a shared '
-                                     'jwk_item/jwk_set/ops table, no non-re-entrant library entry point', total, bad, floor=100)
+                                     'jwk_item/jwk_set/ops table, no non-re-entrant library entry point', total, bad, floor=70)
     # who writes the globals that are read there?
     writers = {}
     for k, info in eff.funcs.items():
